@@ -82,13 +82,19 @@ def build(tier: str, rng: random.Random):
         o2 = calcheck.maximal(calcheck.tlc_scripts(gen))
         n_avail += len(o2)
         for o in calcheck.sample_scripts(o2, k, rng):
-            scripts.append(calcheck.to_script(o, b, seed=rng.randrange(1, 10**6)))
+            sc = calcheck.to_script(o, b, seed=rng.randrange(1, 10**6))
+            if rng.random() < 0.5:
+                # losses that reach exactly zero (and stay non-negative) while the calibration goes on
+                sc["loss"] = {"seq": [rng.choice([0, 0, 3, 6]) for _ in range(24)], "default": 6}
+            scripts.append(sc)
     # the real epsilon-greedy agent (its choices are whatever its policy returns: the calls / batch counts of the TLC behaviours are kept)
     b = calcfg.config("Gen_C09_rl")
     o3 = calcheck.maximal(calcheck.tlc_scripts("Gen_C09_rl"))
     for o in calcheck.sample_scripts(o3, 30 if tier == "quick" else 115, rng):
         sc = calcheck.to_script([x for x in o if x[0] != "choose"], b, seed=rng.randrange(1, 10**6))
         sc["cfg"]["eps"] = rng.choice([0.0, 0.3, 1.0])
+        if rng.random() < 0.4:
+            sc["loss"] = {"seq": [rng.choice([0, 0, 3, 6]) for _ in range(24)], "default": 6}
         scripts.append(sc)
     return scripts, n_avail
 
